@@ -142,6 +142,7 @@ let dispatch op args = match op, args with
       L [(match m with Refused -> N | Ok (a, b) -> L [L (List.map vzl a); L (List.map vzl b)]); L [L (List.map vzl s1); L (List.map vzl s2)]]
   | "nonzero", [x] -> let ((a, b), (c, d)) = op_nonzero (zll x) in L [L [vzl a; vzl b]; L [vzl c; vzl d]]
   | "subset", [x; L m] -> let (md, sp) = op_subset (zll x) (List.map bl m) in L [vrows md; L (List.map vzl sp)]
+  | "rl2_any", [x] -> let ((ev, vs), dec), sp = rl2_any_Z (zll x) in L [L [vzl ev; vzl vs; vzl dec]; vzl sp]
   | "rslice1d", [x; st; en] -> let (md, sp) = op_rslice1d (zl x) (zl st) (zl en) in L [vrows md; L (List.map vzl sp)]
   | "rslice2d", [x; w; st; en] -> let (md, sp) = op_rslice2d (zll x) (zi w) (zl st) (zl en) in L [vrows md; L (List.map vzl sp)]
   | "rslice", [x; st; en] -> let (md, sp) = op_rslice (zll x) (zl st) (zl en) in L [vrows md; L (List.map vzl sp)]
